@@ -8,6 +8,7 @@
   monitor only (and by the decorator table, see Generated/).
 -/
 import PulserModel.Sequence
+import PulserModel.Param
 namespace Pulser
 namespace C13
 
@@ -151,6 +152,51 @@ example : (stepRaw s1 (.declare (.user 1) 1 none)).err = some .xyConflict := by 
 
 example : (stepRaw (run s1 [.measure .digital]) (.delay 100 (.user 0) false)).err = some .measured := by
   decide +kernel
+
+/-! ### Parametrized mode (on the template model of PulserModel/Param.lean) -/
+
+open Param in
+/-- **Using a variable makes the sequence parametrized** — whether or not the call then
+succeeds (this is what finding F3 is about: even a refused foreign variable flips the mode). -/
+theorem variable_use_parametrizes (t : Tmpl) (p : POp) (h : p.isParam = true) :
+    (tstep t p).1.param = true := by
+  unfold tstep
+  simp only [h, if_true, Bool.true_and]
+  split
+  · rfl
+  · simp only [Bool.not_true, Bool.false_eq_true, if_false]
+    split
+    · rfl
+    · split <;> rfl
+
+open Param in
+/-- **Once parametrized, always parametrized** (until `build`, which returns a new sequence),
+**and the concrete timeline no longer changes**: every further call is checked and stored, never
+executed. -/
+theorem parametrized_is_sticky (t : Tmpl) (p : POp) (h : t.param = true) :
+    (tstep t p).1.param = true ∧ (tstep t p).1.pre = t.pre := by
+  unfold tstep
+  have h1 : (if p.isParam = true then { t with param := true } else t : Tmpl) = t := by
+    split
+    · cases t; simp_all
+    · rfl
+  simp only [h1, h]
+  split
+  · exact ⟨h, rfl⟩
+  · simp only [Bool.not_true, Bool.false_eq_true, if_false]
+    split
+    · exact ⟨h, rfl⟩
+    · split <;> exact ⟨rfl, rfl⟩
+
+open Param in
+/-- A call without variables on a sequence that is not parametrized is executed immediately
+(exactly `stepRaw`), and the sequence stays concrete. -/
+theorem concrete_call_executes (t : Tmpl) (p : POp) (op : Op) (h : t.param = false)
+    (hp : p.isParam = false) (hc : concretize p = some op) :
+    (tstep t p).1.pre = (stepRaw t.pre op).st ∧ (tstep t p).1.param = false ∧
+    (tstep t p).1.stored = t.stored := by
+  unfold tstep
+  simp [hp, h, hc]
 
 end C13
 end Pulser
